@@ -361,14 +361,27 @@ fn new_iter(r: &mut Rng, out: &mut String, all: &[u32], k: usize) -> Cur {
 
 pub fn gen_case(r: &mut Rng, out: &mut String) {
     // ---- the set
-    let nchunks = match r.below(10) {
+    let nchunks = match r.below(11) {
         0..=2 => 1,
         3..=5 => 2,
         6..=7 => 3,
+        10 => r.range(33, 70) as usize, // many tiny chunks: nth / advance_to skip over dozens of containers
         _ => 4,
     };
     let mut keys: Vec<u32> = Vec::new();
-    while keys.len() < nchunks {
+    if nchunks > 4 {
+        let k0 = *r.pick(&[0u32, 5, 0xFFFF - nchunks as u32]);
+        let mut k = k0;
+        while keys.len() < nchunks {
+            keys.push(k);
+            k += if r.chance(1, 6) { 2 } else { 1 };
+            if k > 0xFFFF {
+                break;
+            }
+        }
+    }
+    let many = nchunks > 4;
+    while keys.len() < nchunks.min(4) {
         let k = if r.chance(3, 4) { *r.pick(&KEYS) } else { r.below(65536) as u32 };
         if !keys.contains(&k) {
             keys.push(k);
@@ -378,8 +391,13 @@ pub fn gen_case(r: &mut Rng, out: &mut String) {
     let mut all: Vec<u32> = Vec::new();
     let mut nbitset = 0;
     for &k in &keys {
-        let bitset = nbitset < 2 && r.chance(1, 2);
-        let lows = if bitset {
+        let bitset = nbitset < 2 && r.chance(1, if many { 30 } else { 2 });
+        let lows = if many && !bitset {
+            let mut v: Vec<u32> = (0..r.range(1, 3)).map(|_| *r.pick(&[0u32, 1, 63, 64, 4095, 65535])).collect();
+            v.sort_unstable();
+            v.dedup();
+            v
+        } else if bitset {
             nbitset += 1;
             bitset_chunk(r)
         } else {
